@@ -5,6 +5,7 @@ import (
 	"encoding/base64"
 	"flag"
 	"fmt"
+	"github.com/google/trillian"
 	"math"
 	"net/url"
 	"strconv"
@@ -58,6 +59,7 @@ type Profile struct {
 	SeqWeight       int
 	Quota           bool
 	SlowReads       bool   // some clients read responses slowly (response writes are seams)
+	ReadOnlyReplica bool   // the last replica is configured read-only (it has no submission endpoints; reads must be served as anywhere else)
 	StoreIgnoresCtx bool   // external mode: the chain store finishes lookups whatever happens to the request's context
 	Prefill         int    // external mode: submissions made (honestly, through the front end) before the run proper starts
 	CacheKind       string // external mode: noop | lru | lru-ttl | chaos
@@ -69,6 +71,7 @@ type Profile struct {
 type replica struct {
 	inst *rctfe.Instance
 	skew time.Duration
+	ro   bool // configured is_readonly: serves reads only (a read-only front end next to the writable ones)
 	// a sibling log only (C01): another log served by the same process
 	prefix string
 	key    *oracle.Key
@@ -145,12 +148,14 @@ func (w *World) Init(s *kernel.Sim) {
 		}
 		p.Skews = append(p.Skews, sk)
 	}
-	p.LogKeyKind = []string{"p256", "rsa2048"}[t.Intn(2)]
+	// p384: a log key RFC 6962 does not provide for, which the front end accepts all the same ("all log key types")
+	p.LogKeyKind = []string{"p256", "rsa2048", "p256", "rsa2048", "p384"}[t.Intn(5)]
 	p.Deadline = []time.Duration{10 * time.Second, 500 * time.Millisecond, 2 * time.Second, time.Minute}[t.Intn(4)]
 	p.Mask = t.Chance(1, 2)
 	p.Mapper = t.Chance(1, 3)
 	p.Quota = t.Chance(1, 3)
 	p.SlowReads = t.Chance(1, 3)
+	p.ReadOnlyReplica = p.Replicas > 1 && t.Chance(1, 2)
 	p.MaxOps = t.Range(4, 28)
 	p.Conc = t.Range(1, 4)
 	if kernel.Thorough() {
@@ -221,6 +226,8 @@ func (w *World) build() {
 	priv, pub := LogKey(w.logKey)
 	for i := 0; i < p.Replicas; i++ {
 		cfg := &configpb.LogConfig{LogId: 7001, Prefix: "sim", RootsPemFile: []string{rootsFile}, PrivateKey: priv, PublicKey: pub}
+		ro := p.ReadOnlyReplica && i == p.Replicas-1
+		cfg.IsReadonly = ro
 		ip := InstanceParams{Cfg: cfg, Backend: w.be, Deadline: p.Deadline, Mask: p.Mask, Skew: p.Skews[i], QuotaUsers: p.Quota}
 		if p.Mapper {
 			ip.Mapper = func(err error) (int, bool) {
@@ -240,7 +247,7 @@ func (w *World) build() {
 		if err != nil {
 			panic("harness: cannot build instance: " + err.Error())
 		}
-		w.reps = append(w.reps, &replica{inst: inst, skew: p.Skews[i]})
+		w.reps = append(w.reps, &replica{inst: inst, skew: p.Skews[i], ro: ro})
 	}
 	if w.mode.External && w.mode.Prop == "C14" && t.Chance(1, 2) {
 		cfg := &configpb.LogConfig{LogId: 7001, Prefix: "sim", RootsPemFile: []string{rootsFile}, PrivateKey: priv, PublicKey: pub}
@@ -259,7 +266,7 @@ func (w *World) build() {
 			sk = k[1]
 		}
 		if t.Chance(1, 2) {
-			sk = oracle.Keys(map[string]string{"p256": "rsa2048", "rsa2048": "p256"}[p.LogKeyKind])[0]
+			sk = oracle.Keys(map[string]string{"p256": "rsa2048", "rsa2048": "p256", "p384": "p256"}[p.LogKeyKind])[0]
 		}
 		sb := &Backend{S: s, Log: reflog.New(7003, epoch.UnixNano()), Name: "be2"}
 		spriv, spub := LogKey(sk)
@@ -339,6 +346,17 @@ func (w *World) newOp(kind string) *Op {
 	op.Party = fmt.Sprintf("op%03d", op.ID)
 	w.ops = append(w.ops, op)
 	return op
+}
+
+// repFor: the replica that serves op. Requests to the submission endpoints (good or bad) never go to the read-only
+// replica - it does not have those endpoints.
+func (w *World) repFor(op *Op) *replica {
+	rep := w.reps[op.Replica]
+	if rep.ro && strings.HasPrefix(op.Path, "/ct/v1/add-") {
+		op.Replica = 0
+		rep = w.reps[0]
+	}
+	return rep
 }
 
 // newOpLocked creates an operation on a goroutine other than the driver (real
@@ -610,7 +628,7 @@ func (w *World) launch(op *Op) {
 	w.opSeq++
 	op.StartSeq = w.opSeq
 	op.StartT = w.s.Now()
-	rep := w.reps[op.Replica]
+	rep := w.repFor(op)
 	if op.Legacy {
 		rep = w.legacy
 	}
@@ -690,6 +708,14 @@ func (w *World) faultOption(p *kernel.Parked) (kernel.Option, bool) {
 		case "rpc.malformed":
 			ks := MalformedKinds[rpc]
 			d.S = ks[t.Intn(len(ks))]
+			if req, ok := p.Info.(*trillian.GetLeavesByRangeRequest); ok && t.Chance(1, 2) {
+				// the front end asked for less than the client did (alignment, maximum): the place where "more leaves
+				// than asked for" and "more than the client wanted" are two different numbers
+				if op := w.opByParty(p.Party); op != nil && op.Kind == "get-entries" && op.Bad == "" && op.B >= op.A && uint64(op.B-op.A) >= uint64(req.Count) {
+					d.S = "leaves.surplus"
+					s.Probe("surplus-on-shortened-request")
+				}
+			}
 		case "rpc.short":
 			d.N = int64(t.Range(1, 3))
 		}
